@@ -1028,3 +1028,73 @@ func TestVerifC17TopLevel(t *testing.T) {
 	}
 	r.Sample(map[string]any{"N_bits": N.BitLen(), "bases": 2})
 }
+
+// TestVerifC17StepDuplicates: inside the "bit = 1" branch of an exponentiation step the prover sends a
+// second copy of the commitment to the base power (it needs responses under the branch's own challenge).
+// The multiplication post = pre * mul mod m that the branch proves must be about the value the
+// SURROUNDING proof committed to, not about whatever the copy commits to: a prover who commits to mul
+// outside and multiplies with another value inside proves nothing about the exponentiation.
+func TestVerifC17StepDuplicates(t *testing.T) {
+	r := vkit.Start(t, "C17", "exp-step-duplicate-commitment", 120*time.Second, 600*time.Second)
+	defer r.Finish()
+	r.Rule = "exponentiation step (bit = 1) in a 700-bit group: surrounding commitments to (pre, mul, mod, post) with post = pre*cheat mod m for cheat != mul, the prover answering with cheat in the branch's copy; (pre, mul, cheat, mod) over {2,3,7} x {3,4} x {5,6,9} x {11,13}; control: cheat = mul (honest); non-trivial = distinct tuple; oracle: honest => the verifier rebuilds the prover's commitment list; cheating (statement false for the committed values) => it does not"
+	g, gok := zkproof.BuildGroup(findConvenientPrime(700))
+	if !gok {
+		r.HarnessError("group")
+		return
+	}
+	challenge := big.NewInt(123456789)
+	for _, pre := range []int64{2, 3, 7} {
+		for _, mul := range []int64{3, 4} {
+			for _, cheat := range []int64{3, 4, 5, 6, 9} {
+				for _, mod := range []int64{11, 13} {
+					if _, mine := r.Next(); !mine {
+						continue
+					}
+					post := pre * cheat % mod
+					honest := pre*mul%mod == post
+					desc := fmt.Sprintf("pre=%d committed mul=%d, multiplied with %d, mod=%d, post=%d", pre, mul, cheat, mod, post)
+					r.Eval()
+					r.Nontrivial(desc)
+					bitS, preS, postS, mulS, modS := newPedersenStructure("bit"), newPedersenStructure("pre"), newPedersenStructure("post"), newPedersenStructure("mul"), newPedersenStructure("mod")
+					_, bitC := bitS.commitmentsFromSecrets(g, nil, big.NewInt(1))
+					_, preC := preS.commitmentsFromSecrets(g, nil, big.NewInt(pre))
+					_, postC := postS.commitmentsFromSecrets(g, nil, big.NewInt(post))
+					_, mulC := mulS.commitmentsFromSecrets(g, nil, big.NewInt(mul))
+					_, modC := modS.commitmentsFromSecrets(g, nil, big.NewInt(mod))
+					_, cheatC := mulS.commitmentsFromSecrets(g, nil, big.NewInt(cheat))
+					if cheat == mul {
+						cheatC = mulC
+					}
+					bases := zkproof.NewBaseMerge(&g, &bitC, &preC, &postC, &mulC, &modC)
+					cheatSecrets := zkproof.NewSecretMerge(&bitC, &preC, &postC, &cheatC, &modC)
+					s := newExpStepBStructure("bit", "pre", "post", "mul", "mod", 4)
+					var same, structOK bool
+					pan, msg := vkit.Guard(func() {
+						listSecrets, commit := s.commitmentsFromSecrets(g, []*big.Int{}, &bases, &cheatSecrets)
+						proof := s.buildProof(g, challenge, commit, &cheatSecrets)
+						structOK = s.verifyProofStructure(proof)
+						bitP, preP, postP, mulP, modP := bitS.buildProof(g, challenge, bitC), preS.buildProof(g, challenge, preC), postS.buildProof(g, challenge, postC), mulS.buildProof(g, challenge, mulC), modS.buildProof(g, challenge, modC)
+						bitP.setName("bit")
+						preP.setName("pre")
+						postP.setName("post")
+						mulP.setName("mul")
+						modP.setName("mod")
+						pb := zkproof.NewBaseMerge(&g, &bitP, &preP, &postP, &mulP, &modP)
+						same = c17SameList(listSecrets, s.commitmentsFromProof(g, []*big.Int{}, challenge, &pb, proof))
+					})
+					accepted := !pan && structOK && same
+					r.Outcome(fmt.Sprintf("honest=%v:accepted=%v", honest, accepted))
+					switch {
+					case pan && honest:
+						r.Violate("C17|exp-step|honest-step-panicked", desc+": "+msg, desc)
+					case honest && !accepted:
+						r.Violate("C17|exp-step|honest-step-rejected", desc, desc)
+					case !honest && accepted:
+						r.Violate("C17|exp-step|multiplication-with-a-value-other-than-the-committed-one-accepted", desc+": the verifier rebuilds exactly the prover's commitments although post != pre*mul mod m for the committed values", desc)
+					}
+				}
+			}
+		}
+	}
+}
